@@ -17,7 +17,9 @@ def showSlot : Slot → String
   | .sub k b m => s!"sub:{k}:{b}:" ++ (match m with | .dist => "dist" | .transform => "transform")
 
 def showClasses (t : ClassTable) : String :=
-  " ".intercalate (t.classes.map fun (n, c) => s!"{n}={c.name}[" ++ ";".intercalate (c.slots.map showSlot) ++ "]")
+  " ".intercalate (t.classes.map fun (n, c) =>
+      s!"{n}={c.name}" ++ (match c.selfRegAfter with | some k => s!"@{k}" | none => "") ++
+      "[" ++ ";".intercalate (c.slots.map showSlot) ++ "]")
     ++ " | " ++ " ".intercalate (t.sigs.map fun (n, a) => s!"{n}=" ++ ",".intercalate a)
 
 partial def showErr : Err → String
@@ -53,7 +55,7 @@ def showPlateErr : PlateErr → String
 def handle (line : String) : String :=
   match splitWords line with
   | ["classes"] => showClasses classTable
-  | ["cfg"] => s!"{TTGen.C13.cfg.checkBefore} {TTGen.C13.cfg.checkAfter} {TTGen.C13.recognised}"
+  | ["cfg"] => s!"{TTGen.C13.cfg.checkBefore} {TTGen.C13.cfg.checkAfter} {TTGen.C13.cfg.afterIsIdentity} {TTGen.C13.recognised}"
   | "rc" :: toks => match decodeAll toks with
     | some j => encodeStr (removeComments j)
     | none => "bad-op"
